@@ -161,13 +161,22 @@ pub fn decode(t: &mut Tape) -> Case {
             let jt = instr_tid(bbase + 0x1f, 0);
             let jt2 = instr_tid(bbase + 0x1f, 1);
             let target = |g: &mut G| blk_tid(sbase + 0x20 * g.t.below(nblocks) as u64);
+            let mut pending_hints: Vec<Tid> = vec![];
             let jmps = match g.t.below(16) {
                 0 | 1 => vec![jmp(jt, Jmp::Branch(target(&mut g)))],
                 2..=5 => {
                     let c = g.cond();
                     let t1 = target(&mut g);
                     let t2 = target(&mut g);
-                    vec![jmp(jt, Jmp::CBranch { target: t1, condition: c }), jmp(jt2, Jmp::Branch(t2))]
+                    if g.t.prob(40) {
+                        // switch dispatch behind a check: the not-taken side is an indirect jump with target hints
+                        let e = evar(&g.creg());
+                        let t3 = target(&mut g);
+                        pending_hints = vec![t2, t3];
+                        vec![jmp(jt, Jmp::CBranch { target: t1, condition: c }), jmp(jt2, Jmp::BranchInd(e))]
+                    } else {
+                        vec![jmp(jt, Jmp::CBranch { target: t1, condition: c }), jmp(jt2, Jmp::Branch(t2))]
+                    }
                 }
                 6..=8 => {
                     // allocation call (taint source)
@@ -204,7 +213,13 @@ pub fn decode(t: &mut Tape) -> Case {
                 defs.push(assign(instr_tid(bbase + 0x1d, 0), &var("RSP", 8), ebin(BinOpType::IntSub, evar(&var("RSP", 8)), econst(8, 8))));
                 defs.push(store(instr_tid(bbase + 0x1d, 1), evar(&var("RSP", 8)), econst((bbase + 0x20) as i128, 8)));
             }
-            blocks.push(blk(blk_tid(bbase), defs, jmps));
+            let mut b = blk(blk_tid(bbase), defs, jmps);
+            for h in pending_hints {
+                if !b.term.indirect_jmp_targets.contains(&h) {
+                    b.term.indirect_jmp_targets.push(h);
+                }
+            }
+            blocks.push(b);
         }
         subs.push(sub(sub_tid(sbase), &format!("f{}", si), blocks));
     }
@@ -324,8 +339,10 @@ pub fn explore(project: &Project, sub: &Term<Sub>, start_block: &Tid, start_tain
                     let _ = ji;
                 }
                 Jmp::BranchInd(_) => {
-                    for h in &b.term.indirect_jmp_targets {
-                        work.push((h.clone(), t.clone()));
+                    if !blocked {
+                        for h in &b.term.indirect_jmp_targets {
+                            work.push((h.clone(), t.clone()));
+                        }
                     }
                 }
                 Jmp::Return(_) => {
